@@ -188,7 +188,7 @@ def gen_cases(tier, seed):
                 n += 1
     # 3. sampled histories: longer vectors (<= 6), boundary values, all return forms, both libraries, bare library name,
     #    calls from inside list callbacks, faults sprinkled
-    total = 1200 if quick else 20000
+    total = 2500 if quick else 30000
     for i in range(total):
         rng = Rng(derive(seed, PROP, "hist", i))
         calls = []
